@@ -213,26 +213,55 @@ def _xi(k, i):
     return 1.0 if (v >> 16) & 1 else -1.0
 
 
+def _chol_psd(N, A):
+    """Lower Cholesky factor of a symmetric PSD matrix; non-positive pivots give zero columns."""
+    nn = A.shape[0]
+    L = N.zeros(nn, nn)
+    A = A.copy()
+    for j in range(nn):
+        piv = A[j, j]
+        if not piv > 0:
+            continue
+        r = N.sqrt(piv)
+        L[j, j] = r
+        for i in range(j + 1, nn):
+            L[i, j] = A[i, j] / r
+        for i in range(j + 1, nn):
+            if L[i, j] != 0:
+                A[i, j + 1 :] = A[i, j + 1 :] - L[i, j] * L[j + 1 :, j]
+    return L
+
+
 def _perturb(N, m, P, k, delta, h, n, d):
-    """Rounding model of a solver that works in Taylor-scaled coordinates x~ = T(h)^-1 x,
-    T(h) = diag(h^(q-i)/(q-i)!): a relative perturbation of size delta of the *scaled* state,
-    x <- (I + E) x, P <- (I + E) P (I + E)^T with E = delta * T Xi T^-1, Xi_ij = +-1.
-    Used only to estimate the accuracy attainable in float64 (to widen tolerances soundly)."""
+    """Rounding model of a square-root solver that works in Taylor-scaled coordinates
+    x~ = T(h)^-1 x, T(h) = diag(h^(q-i)/(q-i)!):  the scaled mean and the scaled Cholesky factor
+    are perturbed *additively, relative to their largest entry*:
+        m~ <- m~ + delta*max|m~|*xi,   L~ <- L~ + delta*max|L~|*Xi,   P~ = L~ L~^T.
+    (A backward-stable QR-based implementation commits errors of this form; small eigen-
+    directions of P lose eps*sqrt(cond) digits.)  Used only to estimate the accuracy attainable
+    in float64, i.e. to widen tolerances soundly; never to decide a comparison by itself."""
     if not delta:
         return m, P
     q = n - 1
     hh = N.num(h)
-    tdiag = [hh ** (q - i) / math.factorial(q - i) for i in range(n)]
-    E = N.zeros(n * d, n * d)
-    for i in range(n):
-        for j in range(n):
-            f = N.num(delta) * tdiag[i] / tdiag[j]
-            for a in range(d):
-                for b in range(d):
-                    E[i * d + a, j * d + b] = f * _xi(k * 131 + i * d + a, j * d + b)
-    IE = N.eye(n * d) + E
-    Pn = IE @ P @ IE.T
-    return IE @ m, (Pn + Pn.T) / 2
+    t1 = [hh ** (q - i) / math.factorial(q - i) for i in range(n)]
+    tv = np.array([t1[i] for i in range(n) for _ in range(d)], dtype=object if N.mp else float)
+    ms = m / tv
+    Ps = P / np.outer(tv, tv)
+    L = _chol_psd(N, Ps)
+    nn = n * d
+    mmax = max(abs(x) for x in ms) if nn else 0
+    lmax = max(abs(L[i, j]) for i in range(nn) for j in range(nn)) if nn else 0
+    dl = N.num(delta)
+    xi_m = np.array([_xi(k, i) for i in range(nn)], dtype=object if N.mp else float)
+    Xi = np.array([[_xi(k * 131 + 17 + i, j) for j in range(nn)] for i in range(nn)], dtype=object if N.mp else float)
+    if N.mp:
+        xi_m, Xi = N.arr(xi_m.astype(float)), N.arr(Xi.astype(float))
+    ms2 = ms + dl * mmax * xi_m
+    L2 = L + dl * lmax * Xi
+    Ps2 = L2 @ L2.T + (Ps - L @ L.T)  # keep whatever the pivot-skipping factor did not capture
+    Pn = Ps2 * np.outer(tv, tv)
+    return ms2 * tv, (Pn + Pn.T) / 2
 
 
 def ekf(spec, ts, m0, P0, nodes=None, perturb=0.0):
@@ -249,7 +278,7 @@ def ekf(spec, ts, m0, P0, nodes=None, perturb=0.0):
     m, P = N.arr(m0), N.arr(P0)
     one = N.num(1)
     unit = one if spec.fact != "blockdiag" else N.arr(np.ones(d))
-    out = dict(m=[], P=[], mp=[], Pp=[], Phi=[], scale=[], kind=list(nodes))
+    out = dict(m=[], P=[], mp=[], Pp=[], Phi=[], scale=[], kind=list(nodes), ts=list(ts), perturb=perturb)
     run_sq, ndata = (0 * unit), 0
 
     if spec.cinit:
@@ -340,9 +369,13 @@ def calibrate_cov(spec, P, scale):
 
 
 def rts(spec, f):
-    """Rauch-Tung-Striebel pass over the filter output; returns smoothed (m, P, gains)."""
+    """Rauch-Tung-Striebel pass over the filter output; returns smoothed (m, P, gains).
+    If the filter was run with a rounding-model perturbation, the backward pass is perturbed
+    in the same way (gains and smoothed states), so that the attainable-accuracy estimate
+    covers the backward recursion too."""
     N = spec.N
     K = len(f["m"])
+    delta, ts = f.get("perturb", 0.0), f.get("ts")
     ms, Ps = [None] * K, [None] * K
     G = [None] * K
     ms[-1], Ps[-1] = f["m"][-1], f["P"][-1]
@@ -357,4 +390,8 @@ def rts(spec, f):
         ms[i] = f["m"][i] + Gi @ (ms[i + 1] - f["mp"][i + 1])
         Pi = f["P"][i] + Gi @ (Ps[i + 1] - Pp) @ Gi.T
         Ps[i] = (Pi + Pi.T) / 2
+        if delta and i > 0:
+            # the smoothed state handed to the next backward step carries rounding as well
+            mi, Pi2 = _perturb(N, ms[i], Ps[i], 9000 + i, delta, ts[i + 1] - ts[i], spec.n, spec.d)
+            ms[i], Ps[i] = mi, Pi2
     return ms, Ps, G
